@@ -43,7 +43,7 @@ import sys
 
 r2d = 180.0 / math.pi
 d2r = math.pi / 180.0
-DEFTOL = 1e-8
+DEFTOL = 1e-10
 
 # map the odd scamp naming scheme onto a matrix
 # I didn't figure out the formula
